@@ -47,3 +47,44 @@ pub proof fn lemma_no_overlap(v: Seq<Codepoints>, i: int, j: int, x: int)
     if i < j { assert(hi(v[i]) < lo(v[j])); }
     if j < i { assert(hi(v[j]) < lo(v[i])); }
 }
+
+// ---- value tables (code point entries paired with a class name)
+pub open spec fn keys(v: Seq<(Codepoints, String)>) -> Seq<Codepoints> { v.map_values(|p: (Codepoints, String)| p.0) }
+// "x has class s in table v"
+pub open spec fn assoc(v: Seq<(Codepoints, String)>, x: int, s: Seq<char>) -> bool {
+    exists|i: int| 0 <= i < v.len() && covers(#[trigger] v[i].0, x) && v[i].1@ == s
+}
+pub open spec fn all_below(v: Seq<(Codepoints, String)>, b: int) -> bool {
+    forall|i: int| 0 <= i < v.len() ==> hi(#[trigger] v[i].0) < b
+}
+
+pub proof fn lemma_assoc_push(v: Seq<(Codepoints, String)>, p: (Codepoints, String), x: int, s: Seq<char>)
+    ensures assoc(v.push(p), x, s) <==> (assoc(v, x, s) || (covers(p.0, x) && p.1@ == s))
+{
+    let w = v.push(p);
+    if assoc(v, x, s) { let i = choose|i: int| 0 <= i < v.len() && covers(#[trigger] v[i].0, x) && v[i].1@ == s; assert(w[i] == v[i]); }
+    if covers(p.0, x) && p.1@ == s { assert(w[v.len() as int] == p); }
+    if assoc(w, x, s) { let i = choose|i: int| 0 <= i < w.len() && covers(#[trigger] w[i].0, x) && w[i].1@ == s; if i < v.len() { assert(w[i] == v[i]); } }
+}
+
+pub proof fn lemma_keys_push(v: Seq<(Codepoints, String)>, p: (Codepoints, String))
+    requires well_formed(keys(v)), lo(p.0) <= hi(p.0), all_below(v, lo(p.0))
+    ensures well_formed(keys(v.push(p))), keys(v.push(p)) == keys(v).push(p.0)
+{
+    assert(keys(v.push(p)) =~= keys(v).push(p.0));
+    assert forall|i: int| 0 <= i < keys(v).len() implies hi(#[trigger] keys(v)[i]) < lo(p.0) by { assert(keys(v)[i] == v[i].0); }
+    lemma_well_formed_push(keys(v), p.0);
+}
+
+pub proof fn lemma_all_below_push(v: Seq<(Codepoints, String)>, p: (Codepoints, String), b: int)
+    requires all_below(v, b), hi(p.0) < b
+    ensures all_below(v.push(p), b)
+{
+    let w = v.push(p);
+    assert forall|i: int| 0 <= i < w.len() implies hi(#[trigger] w[i].0) < b by { if i < v.len() { assert(w[i] == v[i]); } }
+}
+pub proof fn lemma_all_below_mono(v: Seq<(Codepoints, String)>, a: int, b: int)
+    requires all_below(v, a), a <= b
+    ensures all_below(v, b)
+{
+}
